@@ -385,14 +385,21 @@ impl ISocket for DealerSocket {
         };
       drop(transaction_guard);
 
+      // Wakes send_multipart() callers waiting for this transaction, also when this future is
+      // dropped at the await below (the transaction is already back to Idle then).
+      struct NotifyOnDrop(Option<Arc<Notify>>);
+      impl Drop for NotifyOnDrop {
+        fn drop(&mut self) {
+          if let Some(notifier) = self.0.take() {
+            notifier.notify_waiters();
+          }
+        }
+      }
+      let _transaction_done = NotifyOnDrop(notifier_opt);
+
       let full_message_for_wire =
         self.prepare_full_multipart_send_sequence(parts_to_send_app_level);
-      let result = self.send_logical_message(full_message_for_wire).await;
-
-      if let Some(notifier) = notifier_opt {
-        notifier.notify_waiters();
-      }
-      result
+      self.send_logical_message(full_message_for_wire).await
     }
   }
 
@@ -443,6 +450,11 @@ impl ISocket for DealerSocket {
           ..
         } => {
           let notifier_clone = completion_notifier.clone();
+          // Register for the wake-up while the transaction is still locked: notify_waiters()
+          // only reaches waiters that already exist.
+          let transaction_finished = notifier_clone.notified();
+          tokio::pin!(transaction_finished);
+          transaction_finished.as_mut().enable();
           drop(transaction_guard);
 
           let closing_signal_future = async {
@@ -460,7 +472,7 @@ impl ISocket for DealerSocket {
               tokio::select! {
                 biased;
                 _ = closing_signal_future => return Err(ZmqError::InvalidState("Socket is closing while waiting for prior send tx".into())),
-                res = tokio_timeout(duration, notifier_clone.notified()) => {
+                res = tokio_timeout(duration, transaction_finished.as_mut()) => {
                   if res.is_err() { return Err(ZmqError::Timeout); }
                 }
               }
@@ -469,7 +481,7 @@ impl ISocket for DealerSocket {
               tokio::select! {
                 biased;
                 _ = closing_signal_future => return Err(ZmqError::InvalidState("Socket is closing while waiting for prior send tx".into())),
-                _ = notifier_clone.notified() => { }
+                _ = transaction_finished.as_mut() => { }
               }
             }
           }
